@@ -623,8 +623,9 @@ def drive_c20(tier, seed, cfg):
         delay = 0.12 + (k * 0.618 % 1.0) * 0.5
         p = subprocess.Popen([PLAN, "--quiet", "report", "in.tjp"], cwd=c2, env=cli_env(t2), stdin=subprocess.DEVNULL, stdout=subprocess.PIPE, stderr=subprocess.PIPE)
         time.sleep(delay)
+        sig = [signal.SIGINT, signal.SIGTERM, signal.SIGHUP][k % 3]     # ^C, 'timeout N plan report ...' / kill, a closed terminal
         if p.poll() is None:
-            p.send_signal(signal.SIGINT)
+            p.send_signal(sig)
         try:
             out, err = p.communicate(timeout=120)
         except subprocess.TimeoutExpired:
@@ -632,15 +633,16 @@ def drive_c20(tier, seed, cfg):
             out, err = p.communicate()
         left_t = snapshot(t2)
         shutil.rmtree(d, ignore_errors=True)
-        return k, delay, p.returncode, out, left_t
+        return k, delay, p.returncode, out, left_t, sig.name
     with cf.ThreadPoolExecutor(max_workers=8) as ex:
-        for k, delay, rc, out, left_t in ex.map(run_sigint, range(tc["sigints"])):
+        for k, delay, rc, out, left_t, signame in ex.map(run_sigint, range(tc["sigints"])):
             C["sigint-runs"] += 1
+            C["signal:" + signame] += 1
             if rc != 0:
                 C["sigint-interrupted"] += 1
-            sigs.add(common.dumps(("C20", "sigint", rc, bool(left_t), round(delay, 1))))
+            sigs.add(common.dumps(("C20", "signal", signame, rc, bool(left_t), round(delay, 1))))
             if left_t:
-                add("interrupt-leaves-files-in-tmpdir", dict(delay=delay, rc=rc, left=left_t[:5]), dict(signal="SIGINT", delay=delay))
+                add("interrupt-leaves-files-in-tmpdir", dict(signal=signame, delay=delay, rc=rc, left=left_t[:5]), dict(signal=signame, delay=delay))
     # the consumer of the report is gone or cannot take it: stdout is a pipe whose read end is closed / a full device
     # (seeded change C20-c restored the default SIGPIPE disposition: the process died with every artefact in place)
     def run_badout(k):
